@@ -46,6 +46,7 @@ SO_ONLY = {"gp"}
 
 CAT, COMMON_NAMES, THEN_NAMES, ELSE_NAME = "kind", ["alpha", "momentum"], ["depth", "dropout"], "gamma"
 REPORT_OFFSETS = [1.5, -0.5, 1.0, 0.25, -1.25]      # exact dyadics, neither increasing nor decreasing
+DECIMAL_OFFSETS = [3, 1, 2, 0, -1]                  # in tenths ("decimal learning curves", C13)
 
 
 class ScenarioError(Exception):
@@ -192,7 +193,7 @@ def is_ga(kind):
     return cls is not None and issubclass(cls, BaseGASampler)
 
 
-def make_pruner(kind, thr=None, mirror=False, wil=None):
+def make_pruner(kind, thr=None, mirror=False, wil=None, min_delta=0.25):
     """mirror=True: the configuration for the run on the negated objective (value thresholds mirrored)."""
     import optuna.pruners as P
 
@@ -211,7 +212,7 @@ def make_pruner(kind, thr=None, mirror=False, wil=None):
     if kind == "patient_median":
         return P.PatientPruner(P.MedianPruner(n_startup_trials=1, n_warmup_steps=0), patience=1)
     if kind == "patient_delta":
-        return P.PatientPruner(None, patience=1, min_delta=0.25)
+        return P.PatientPruner(None, patience=1, min_delta=min_delta)
     if kind == "wilcoxon":
         return P.WilcoxonPruner(p_threshold=wil[0], n_startup_steps=wil[1])
     if kind == "threshold":
@@ -238,7 +239,11 @@ def _values(prog, number, nums):
         s = 0.0
         for name, x in nums:
             s += prog["weights"][name][k] * x
-        if prog.get("coarse"):
+        if prog.get("decimal"):
+            # C13 "decimal learning curves": multiples of 0.1 as the nearest doubles (not exactly representable), pairwise
+            # distinct by a bijection of the trial number (n_trials <= 16); sums and differences of such values round
+            s = (16.0 * max(-1.0, min(1.0, math.floor(s))) + float((number * 5) % 16)) / 10.0 * (1.0 if k == 0 else -1.0)
+        elif prog.get("coarse"):
             # C13 "discrete learning curves": small integers, pairwise distinct by a bijection of the trial number
             # (n_trials <= 16), so that an interpolated percentile of the other trials often EQUALS a reported value
             q = max(-1.0, min(1.0, math.floor(s)))
@@ -303,7 +308,8 @@ def run_scenario(sc, conf, workdir):
                                     sampler=optuna.samplers.RandomSampler(seed=1))
             o.optimize(lambda t: t.suggest_float("q", 0, 1), n_trials=conf["other"])
         sampler = make_sampler(sc["sampler"], sc["seed"], prog)
-        pruner = make_pruner(sc["pruner"], sc.get("thr"), mirror=bool(flip[0]), wil=sc.get("wil"))
+        pruner = make_pruner(sc["pruner"], sc.get("thr"), mirror=bool(flip[0]), wil=sc.get("wil"),
+                             min_delta=sc.get("min_delta", 0.25))
         kw = {"direction": dirs[0]} if prog["nobj"] == 1 else {"directions": dirs}
         study = optuna.create_study(storage=storage, study_name=sc["study_name"], sampler=sampler, pruner=pruner, **kw)
         best_each = bool(conf.get("best_each"))
@@ -346,6 +352,8 @@ def run_scenario(sc, conf, workdir):
                     raise ScenarioError("deterministic failure")
                 for step in range(prog["reports"] if scores is None else len(scores)):
                     r = vals[0] + REPORT_OFFSETS[step] if scores is None else scores[step]
+                    if prog.get("decimal"):
+                        r = (round(vals[0] * 10.0) + DECIMAL_OFFSETS[step]) / 10.0     # again a multiple of 0.1, correctly rounded
                     r = -r if flip[0] else r
                     if prog.get("nan_mod") and (trial.number * 7 + step * 3) % prog["nan_mod"] == 0:
                         r = math.nan             # a diverged step: NaN in the maximising and in the mirrored run alike
